@@ -14,8 +14,11 @@ import (
 	"github.com/anishathalye/porcupine"
 	dbm "github.com/tendermint/tm-db"
 
+	"github.com/tendermint/iavl"
+
 	"github.com/pokt-network/posmint/store/cachekv"
 	"github.com/pokt-network/posmint/store/dbadapter"
+	iavlstore "github.com/pokt-network/posmint/store/iavl"
 )
 
 type in struct {
@@ -28,12 +31,52 @@ type out struct {
 	ok  bool
 }
 
+// iavlEarlyClose: an IAVL store iterator that is closed before it is exhausted (the validator-set scan stops at
+// MaxValidators) must not leave a goroutine walking the tree while the caller writes to the store and commits it
+// with pruning. Under the race detector any such overlap is reported; without the guarantee the background walk can
+// also meet a pruned node and kill the process.
+func iavlEarlyClose(seed int64, rounds int) {
+	rnd := rand.New(rand.NewSource(seed))
+	st := iavlstore.UnsafeNewStore(iavl.NewMutableTree(dbm.NewMemDB(), 100), int64(rnd.Intn(2)), 0)
+	for r := 0; r < rounds; r++ {
+		for i := 0; i < 30+rnd.Intn(20); i++ {
+			st.Set([]byte(fmt.Sprintf("k%03d", rnd.Intn(200))), []byte(fmt.Sprintf("v%d.%d", r, i)))
+		}
+		var it interface {
+			Valid() bool
+			Next()
+			Key() []byte
+			Close()
+		}
+		if rnd.Intn(2) == 0 {
+			it = st.ReverseIterator([]byte("k"), []byte("l"))
+		} else {
+			it = st.Iterator([]byte("k"), []byte("l"))
+		}
+		for n := rnd.Intn(3); n > 0 && it.Valid(); n-- {
+			_ = it.Key()
+			it.Next()
+		}
+		it.Close()
+		for i := 0; i < 10; i++ {
+			st.Delete([]byte(fmt.Sprintf("k%03d", rnd.Intn(200))))
+		}
+		st.Commit()
+	}
+	fmt.Printf("ok iavl-early-close rounds=%d, no data race reported\n", rounds)
+}
+
 func main() {
+	scenario := flag.String("scenario", "cachekv", "cachekv | iavl-early-close")
 	seed := flag.Int64("seed", 1, "seed")
 	rounds := flag.Int("rounds", 200, "rounds")
 	workers := flag.Int("workers", 6, "goroutines")
 	per := flag.Int("per", 12, "calls per goroutine and round")
 	flag.Parse()
+	if *scenario == "iavl-early-close" {
+		iavlEarlyClose(*seed, *rounds)
+		return
+	}
 	model := porcupine.Model{
 		Init: func() interface{} { return map[string]string{} },
 		Step: func(st, input, output interface{}) (bool, interface{}) {
